@@ -2,13 +2,14 @@ from propcommon import *  # noqa
 
 CFG = dict(
         level="proof",
-        lean_modules=["ElysModel.Props.C12"],
-        props_files=["ElysModel/Props/C12.lean"],
+        lean_modules=["ElysModel.Props.C12", "ElysModel.Props.C12Src"],
+        pre_cmds=[GO2LEAN],
+        props_files=["ElysModel/Props/C12.lean", "ElysModel/Props/C12Src.lean"],
         runs=[hist_run(), hist_run(nq=200, sq=4, st=8, focus="cm."), govpool_run(focus="amm."), dict(mode="c12lock", n_quick=3000, n_thorough=100000, shards_quick=4, shards_thorough=8), gentrip_run(focus="cm.")],
         rule=HIST_RULE,
-        trusted_base=COMMON_TB + ["macro-ops of each block are recognised from x/bank's own transfer/coinbase/burn events and the submitted messages; "
+        trusted_base=COMMON_TB + [SRC_TB, "macro-ops of each block are recognised from x/bank's own transfer/coinbase/burn events and the submitted messages; "
                                   "claimed-bucket bookkeeping of Eden/EdenB and EdenB burns are witnessed (W) from the observation"],
-        assumptions=["lock-ups are modelled and proved on the Commitments value (mode c12lock, differential), not inside the history ledger; VestLiquid is not exercised"],
+        assumptions=[SRC_ASSUME, "lock-ups are modelled and proved on the Commitments value (mode c12lock, differential), not inside the history ledger; VestLiquid is not exercised"],
         explanation="Theorems: the relation the code maintains (total = sum + 2*uncommitted + burnt) by induction over all macro-op histories, total >= sum, "
                     "custody, no-overdraw, the property's first clause over histories without uncommit (partial) and the witness of the defect. "
                     "Known finding C12-uncommit-adds: reported only while the real total equals the as-coded relation exactly.",
